@@ -458,7 +458,21 @@ def rule_r11(ctx):
     rule_error_route(ctx, rid="C01.R11")
 
 
-RULES = [rule_r1, rule_r2, rule_r3, rule_r4, rule_r5, rule_r6, rule_r7, rule_r8, rule_r9, rule_r10, rule_r11]
+def rule_r12(ctx):
+    """Shared with C06.R4: a malformed chunked body / trailer reported by the receiver is relayed as the parser's
+    error before completion is consulted (otherwise the malformed message is delivered)."""
+    from . import c06
+    c06.rule_r4(ctx, rid="C01.R12")
+
+
+def rule_r13(ctx):
+    """Shared with C02.R2b: the receivers report exactly the bytes that belong to the message, so the byte after
+    one message starts the next."""
+    from . import c02
+    c02.rule_r2_receivers(ctx, rid="C01.R13")
+
+
+RULES = [rule_r1, rule_r2, rule_r3, rule_r4, rule_r5, rule_r6, rule_r7, rule_r8, rule_r9, rule_r10, rule_r11, rule_r12, rule_r13]
 
 from ..selftest import M, T, V  # noqa: E402
 
